@@ -97,6 +97,7 @@ class State:
         self.pc = []  # list of T (Bool)
         self.in_range = set()  # ids (hash) of raw terms known to be in range
         self.frames = []
+        self.log = []  # call log written by environment stubs (per path)
 
     def fork(self):
         return copy.deepcopy(self)
@@ -116,7 +117,7 @@ class Program:
         self.by_path = {}
         self.impl_info = {}  # (crate, file, line, col) -> (trait or None, self_type)
         self.enums = dict((k, dict(v)) for k, v in STD_ENUMS.items())
-        self.structs = {}  # name -> [field names]
+        self.structs = {"Range": ["start", "end"]}  # name -> [field names]
         self.src = {}
 
     def add_crate(self, crate, mir_text, crate_dir):
@@ -581,6 +582,8 @@ class Executor:
 
     def eval_rvalue(self, fn, r, st, frame, lhs):
         # references
+        if r.startswith("&raw const (fake) ") or r.startswith("&raw mut (fake) "):
+            return self.make_ref(fn, r.split("(fake) ", 1)[1].strip(), st, frame)
         if r.startswith("&raw "):
             raise Unsupported("raw pointer")
         if r.startswith("&"):
@@ -627,6 +630,12 @@ class Executor:
             return self.eval_operand(fn, r, st, frame)
         # Op(args)
         m = re.match(r"^([A-Za-z]+)\((.*)\)$", r)
+        if m and m.group(1) in ("PtrMetadata", "Len"):
+            v = self.eval_operand(fn, m.group(2), st, frame) if m.group(2).startswith(("copy ", "move ")) else self.read_place(fn, m.group(2), st, frame)
+            v = self.deref(v)
+            if isinstance(v, Agg):
+                return I(len(v.fields))
+            raise Unsupported("length of " + repr(v))
         if m and m.group(1) in BINOPS | UNOPS | {"AddWithOverflow", "SubWithOverflow", "MulWithOverflow", "Len", "PtrMetadata",
                                                   "AddUnchecked", "SubUnchecked", "MulUnchecked", "ShlUnchecked", "ShrUnchecked", "Cmp"}:
             op = m.group(1)
@@ -708,6 +717,9 @@ class Executor:
             else:
                 raise Unsupported("ref projection " + str(pr))
         return Ref(cell, path)
+
+    def write_ref(self, r, val):
+        r.cell.v = self._set_path(r.cell.v, list(r.path), val)
 
     def deref(self, v):
         if isinstance(v, Ref):
